@@ -19,6 +19,8 @@ def run(R):
     cases, r = R.mc("MC_Dist", "MC_Dist_%s.cfg" % R.tier, workers=8, timeout=1800)
     depth = 2 if R.tier == "quick" else 3
     R.replay(cases, extra_args=[str(depth)], timeout=7200)
+    xc, r = R.mc("MC_DistExtreme", "MC_DistExtreme.cfg", workers=2)
+    R.replay(xc, extra_args=["extreme"])
     nh = 300 if R.tier == "quick" else 5000
     tr = R.record("C18", nh, extra_args=[cases])
     R.validate("Trace_Dist", "Trace_Dist.cfg", tr,
